@@ -170,6 +170,13 @@ def run_case(case, want_trace=False):
                 f = None
             newly = d["done_after"] - d["done_before"]
             sent = net.wire[d["wire_before"] : d["wire_after"]]
+            # a reply (ACK/RST) that the kernel refused to send during this delivery fails every request to that remote:
+            # those completions are caused by the transport error, not by the datagram
+            refused_to = {w["dst"] for w in sent if w.get("refused")}
+            if refused_to:
+                for k in list(newly):
+                    if SERVERS[reqs[k]["server"]] in refused_to and ReqLog.outcome(items[k])[0] == "exception":
+                        newly.discard(k)
             sent_f = []
             for w in sent:
                 if w["src"] == CLIENT:
@@ -271,6 +278,8 @@ def run_case(case, want_trace=False):
                 if j != k and it["t_call"] <= jt["t_call"] and (it["t_done"] is None or it["t_done"] > jt["t_call"]):
                     overlap = True
         faulty = any(f[0] != "deliver" for f in case.get("fates", [])) or bool(case.get("forgeries")) or bool(case.get("errors"))
+        if any(w.get("refused") for w in net.wire):
+            labels.add("sendmsg-refused")
         if overlap:
             labels.add("overlap")
         if case.get("forgeries"):
@@ -322,7 +331,7 @@ def _case(draw):
         )
     )
     errors = draw(st.lists(st.fixed_dictionaries({"t": st.sampled_from([0.0005, 0.01, 0.5, 1.5, 4.0]), "server": st.integers(0, 2)}), max_size=2))
-    fates = draw(st.lists(fate_strategy(delays=[0.001, 0.05, 0.15, 1.0, 2.5, 10.0]), max_size=14))
+    fates = draw(st.lists(st.one_of(fate_strategy(delays=[0.001, 0.05, 0.15, 1.0, 2.5, 10.0]), fate_strategy(delays=[0.001, 0.05, 0.15, 1.0, 2.5, 10.0]), fate_strategy(delays=[0.001, 0.05, 1.0]), st.sampled_from([["senderr", 101], ["senderr", 13]])), max_size=14))
     case = {"requests": reqs, "forgeries": forgeries, "errors": errors, "fates": fates, "rng": draw(st.integers(0, 999)), "token0": draw(st.sampled_from([0, 0, 254, 65534, 2**64 - 2]))}
     if draw(st.integers(0, 2)) == 0:
         case["shutdown"] = draw(st.sampled_from([0.0005, 0.5, 1.0005, 3.0, 30.0]))
@@ -362,7 +371,7 @@ RULE = (
     "1-6 concurrent CON/NON requests from a real aiocoap client context to 3 scripted raw servers (two share an IP, differ in port) on the "
     "simulated net: per request a server script (piggybacked / empty ACK + separate CON or NON / CON without ACK / NON / RST / silence / responses "
     "with a wrong token; delays 0-5 s; responses repeated 0-2x; reaction to every copy or the first), per-datagram fates (drop / delay / duplicate => "
-    "reordering), 0-6 forged responses (source = right server, other server, same IP other port, stranger; token = that of a request as seen on the wire "
+    "reordering, or sendmsg() refused by the kernel and reported synchronously through error_received), 0-6 forged responses (source = right server, other server, same IP other port, stranger; token = that of a request as seen on the wire "
     "or random; CON/NON/ACK; MID fresh or the request's), 0-2 ICMP-style errors, optional early shutdown, initial token (incl. wrap-around). Oracle: state of "
     "all response futures is snapshotted before/after every delivery; a response datagram may complete exactly the one transmitted, unfinished request with its "
     "token and its source as destination, with a message equal to the datagram; anything else completes nothing and gets exactly one RST if CON / nothing otherwise; "
